@@ -169,6 +169,12 @@ func c12(c *Check) {
 	}
 	c.Rule("C12/conversion-pays-the-requested-denomination", "frozen table (shared with C11/conversions): each conversion function escrows / releases the coin of the denomination named in the message, so a coin of any denomination the registry lists for a pair converts back into that same coin", 20)
 	c.FrozenFiltered("C11", "C12/conversion-pays-the-requested-denomination", func(fn string) bool { return strings.Contains(fn, "Keeper.convert") })
+	c.Rule("C12/toggle-changes-only-the-flag", "ToggleRelay stores the pair it loaded with nothing but the enabled flag flipped: address spelling, denominations and owner — and with them the pair's id and its index entries — stay what they were", 1)
+	{
+		loaded := "aggregate/keeper.(Keeper).GetTokenPair($0, $1, aggregate/keeper.(Keeper).GetTokenPairID($0, $1, $2))#0"
+		c.Spec("C12/toggle-changes-only-the-flag", Macros{"P": loaded}, FnSpec{Fn: agK + "Keeper.ToggleRelay", Effects: []Eff{
+			{Label: "stores the loaded pair with the flag flipped", Callee: "keeper.(Keeper).SetTokenPair", N: 1, Args: map[int]string{2: "{P} with {Enabled: !{P}.Enabled}"}}}})
+	}
 	c.Rule("C12/id-depends-on", "the pair id hashes the contract address and the first denomination only (so functions changing either must re-index, see three-way-write)", 1)
 	for _, w := range c.P.StoreWrites() {
 		if strings.HasSuffix(funcName(w.Fn), "keeper.(Keeper).SetTokenPair") {
